@@ -774,17 +774,17 @@ def _sims(*names):
 
 
 SUBS = [
-    Sub("components_continuum", check_components, gen=_sims("elastic", "hyperelastic", "inelastic", "phasefield"), quick=160,
+    Sub("components_continuum", check_components, gen=_sims("elastic", "hyperelastic", "inelastic", "phasefield"), quick=120,
         thorough=1500, shards=8, doc="named components vs vector/tensor results, the injected state and the integration-point fields"),
     Sub("components_fields", check_components, gen=_sims("thermal", "weakforms"), quick=160, thorough=1000, shards=4,
         doc="thermal / thermalDot and the u, v, a components of WeakForms vs the injected state"),
-    Sub("components_beam", check_components, gen=_sims("beam"), quick=80, thorough=800, shards=4,
+    Sub("components_beam", check_components, gen=_sims("beam"), quick=60, thorough=800, shards=4,
         doc="beam dof components, generalised strains, internal forces and stresses vs the fields they derive from"),
     Sub("von_mises", check_von_mises, gen=_sims("elastic", "hyperelastic", "inelastic", "phasefield"),
-        quick=150, thorough=1500, shards=4, doc="Svm / Evm vs harness von Mises at the integration points, element mean"),
+        quick=120, thorough=1500, shards=4, doc="Svm / Evm vs harness von Mises at the integration points, element mean"),
     Sub("node_element_conversion", check_conversion, gen=conv_cases, quick=300, thorough=3000, shards=4,
         doc="Results_Reshape_values / Get_Node_Values / Result(nodeValues) preserve constant fields (value and shape)"),
-    Sub("energy", check_energy, gen=_sims("elastic", "elastic", "phasefield", "beam", "thermal", "weakforms"), quick=140,
+    Sub("energy", check_energy, gen=_sims("elastic", "elastic", "phasefield", "beam", "thermal", "weakforms"), quick=120,
         thorough=1200, shards=4, doc="Wdef, Wdef_e.sum(), Calc_Energy vs 1/2 u'Ku; beam nodal forces vs K u, internal forces vs D B u"),
     Sub("reactions", check_reactions, gen=reaction_cases, quick=120, thorough=1000, shards=4,
         doc="sum of Calc_Reaction on a clamped patch + sum of the applied loads = 0 per direction"),
